@@ -85,14 +85,19 @@ def check(events, cfgs, case):
     return msgs, common.digest(dgs), nt, len(cfgs)
 
 
+def _transition(h2, depth, cfgdepth, case):
+    msgs, dg, nt, n = check(h2, configs(len(h2) <= cfgdepth - 1, some=(len(h2) == cfgdepth)), case)
+    return msgs, dg, nt, n, (modsearch.impl_key(h2, case) if len(h2) < depth else None)
+
+
 def expand(history, maxnest, depth, cfgdepth, case):
     out = []
     for ev in enabled(history, maxnest):
         h2 = history + [ev]
-        msgs, dg, nt, n = check(h2, configs(len(h2) <= cfgdepth - 1, some=(len(h2) == cfgdepth)), case)
+        msgs, dg, nt, n, impl = _transition(h2, depth, cfgdepth, case)
         key = None
         if len(h2) < depth:
-            key = (statespace.model_key(h2), modsearch.impl_key(h2, case))
+            key = (statespace.model_key(h2), impl)
         r = modsearch.result(ev, key, msgs, dg, nt)
         r["n"] = n
         out.append(r)
